@@ -163,6 +163,40 @@ fn fti_semantic_ok(fec: u8, v: &[u64]) -> bool {
     }
 }
 
+/// The fields of the parsed `Oti` that are NOT wire values of the scheme's EXT_FTI: what flute has to fill in.
+/// Schemes without FEC instance / parity / scheme-specific part: 0 / 0 / none.  Raptor and RaptorQ do not
+/// transmit the maximum source block length: the receiver derives it from F, Z, T as
+/// ceil(ceil(F / Z) / T) (RFC 6330 4.4.1.2 KL, RFC 5053 5.3.1.2; kept in 32 bits) - computed here independently.
+/// `v` = the RFC-decoded FTI values in diagram order (semantically valid).  `Some(description)` on a mismatch.
+fn fti_derived_mismatch(fec: u8, v: &[u64], ot: &OtiV) -> Option<String> {
+    let mut bad = Vec::new();
+    let want_inst: Option<u16> = if fec == 129 { None } else { Some(0) };
+    if want_inst.map_or(false, |i| ot.inst != i) {
+        bad.push(format!("fec_instance_id {} (want 0)", ot.inst));
+    }
+    if (fec == 0 || fec == 6 || fec == 1) && ot.parity != 0 {
+        bad.push(format!("max_number_of_parity_symbols {} (want 0)", ot.parity));
+    }
+    if (fec == 0 || fec == 5 || fec == 129) && ot.ss.is_some() {
+        bad.push(format!("scheme specific {} (want none)", ot.show_ss()));
+    }
+    if fec == 6 || fec == 1 {
+        let (f, t, z) = (v[0] as u128, v[1] as u128, v[2] as u128);
+        if t >= 1 && z >= 1 {
+            let block = (f + z - 1) / z;
+            let want_b = (((block + t - 1) / t) & 0xFFFF_FFFF) as u32;
+            if ot.b != want_b {
+                bad.push(format!("maximum_source_block_length {} but ceil(ceil(F/Z)/T) = {} for F={} Z={} T={}", ot.b, want_b, f, z, t));
+            }
+        }
+    }
+    if bad.is_empty() {
+        None
+    } else {
+        Some(bad.join(", "))
+    }
+}
+
 #[derive(Clone, Debug, PartialEq)]
 struct LctObs {
     len: usize,
@@ -455,10 +489,21 @@ fn check_spec_parse(d: &[u8], obs: &Sub<ParseObs>, o: &mut Oracle) {
         _ => Some(None),
     };
     let want_fti = sp.p.fti.clone().map(Some);
-    if got_fti != want_fti || po.oti.as_ref().map_or(false, |ot| ot.fec != fec || !ot.inband) {
+    let derived = match (&po.oti, &sp.p.fti) {
+        (Some(ot), Some(v)) => fti_derived_mismatch(fec, v, ot),
+        _ => None,
+    };
+    if got_fti != want_fti || po.oti.as_ref().map_or(false, |ot| ot.fec != fec || !ot.inband) || derived.is_some() {
         o.fail(
             &cls(&format!("spec-parse-fti-{}", fec), h),
-            &format!("EXT_FTI values: flute oti={:?} tl={:?} / RFC layout of scheme {}: {:?}", po.oti.as_ref().map(|x| x.show()), po.tl, fec, sp.p.fti),
+            &format!(
+                "EXT_FTI values: flute oti={:?} tl={:?} / RFC layout of scheme {}: {:?}{}",
+                po.oti.as_ref().map(|x| x.show()),
+                po.tl,
+                fec,
+                sp.p.fti,
+                derived.map_or(String::new(), |d| format!("; {}", d))
+            ),
         );
     }
     if let Some(c) = sp.p.cenc {
@@ -672,12 +717,14 @@ impl WireEngine {
         let ss_ok = fti_want.is_some();
         let fti_ok = fti_want.as_ref().map_or(false, |v| fti_fits(fec, v));
         let fti_rt = fti_ok && fti_want.as_ref().map_or(false, |v| fti_semantic_ok(fec, v));
-        let sct_ok = a.sct.map_or(true, |us| us / 1_000_000 + rd::NTP_UNIX_OFFSET <= u32::MAX as u64);
+        // A sender clock beyond NTP era 0 (>= 2036-02-07T06:28:16Z) is NOT "out of range": the packet must stay
+        // well formed and every other field must still decode; only the SCT VALUE is relaxed (EXT_TIME absent,
+        // or carrying the era-wrapped seconds and the usual fraction).
+        let sct_wrap = a.sct.map_or(false, |us| us / 1_000_000 + rd::NTP_UNIX_OFFSET > u32::MAX as u64);
         let base_ok = a.tsi < (1 << 48)
             && a.toi < (1u128 << 112)
             && (a.toi != 0 || a.fdt_id.map_or(false, |i| i < (1 << 20)))
             && ss_ok
-            && sct_ok
             && (a.oti.b as u64 + a.oti.parity as u64) <= u32::MAX as u64;
         let pid_m = pid_in_range(&a.oti, a.sbn, a.esi, a.sbl);
 
@@ -723,7 +770,8 @@ impl WireEngine {
                 let mut got_hets: Vec<u8> = f.exts.iter().map(|e| e.het).collect();
                 got_hets.sort();
                 want_hets.sort();
-                if got_hets != want_hets {
+                let without_time: Vec<u8> = want_hets.iter().copied().filter(|h| *h != rd::HET_TIME).collect();
+                if got_hets != want_hets && !(sct_wrap && got_hets == without_time) {
                     bad.push(format!("extension types {:?}, want {:?}", got_hets, want_hets));
                 }
                 if p.fdt.map(|(v, i)| (v as u32, i)) != want_fdt {
@@ -734,6 +782,14 @@ impl WireEngine {
                 }
                 match (a.sct, rd::find_ext(&f.exts, rd::HET_TIME)) {
                     (Some(us), Some(e)) => match rd::dec_ext_time(e) {
+                        Some(t) if sct_wrap && t.sct_hi.is_some() && t.ert.is_none() && t.slc.is_none() && t.reserved == 0 && t.pi_specific == 0 => {
+                            // beyond era 0: the 32-bit seconds field can only carry the wrapped value
+                            let want_secs = ((us / 1_000_000 + rd::NTP_UNIX_OFFSET) & 0xFFFF_FFFF) as u32;
+                            let sub = (t.sct_low.unwrap_or(0) as u64 * 1_000_000) >> 32;
+                            if t.sct_hi != Some(want_secs) || sub != us % 1_000_000 {
+                                bad.push(format!("EXT_TIME SCT {:?}:{:?} for a sender time of {} us beyond NTP era 0 (expected wrapped seconds {})", t.sct_hi, t.sct_low, us, want_secs));
+                            }
+                        }
                         Some(t) if t.sct_hi.is_some() && t.ert.is_none() && t.slc.is_none() && t.reserved == 0 && t.pi_specific == 0 => {
                             let got = rd::ntp_to_micros_floor(t.sct_hi.unwrap(), t.sct_low.unwrap_or(0));
                             if got != Some(us) {
@@ -801,11 +857,18 @@ impl WireEngine {
                         (Some(ot), Some(tl)) if ot.fec == fec && ot.inband => ot.fti_vec(tl),
                         _ => None,
                     };
-                    if got != fti_want {
-                        o.fail(&format!("C06:fti-roundtrip-{}", fec), &format!("parsed oti {:?} tl {:?}, sender values {:?}", po.oti.as_ref().map(|x| x.show()), po.tl, fti_want));
+                    let derived = match (&po.oti, &fti_want) {
+                        (Some(ot), Some(v)) => fti_derived_mismatch(fec, v, ot),
+                        _ => None,
+                    };
+                    if got != fti_want || derived.is_some() {
+                        o.fail(
+                            &format!("C06:fti-roundtrip-{}", fec),
+                            &format!("parsed oti {:?} tl {:?}, sender values {:?}{}", po.oti.as_ref().map(|x| x.show()), po.tl, fti_want, derived.map_or(String::new(), |d| format!("; {}", d))),
+                        );
                     }
                 }
-                if po.sct != Sub::Ok(a.sct) {
+                if !sct_wrap && po.sct != Sub::Ok(a.sct) {
                     o.fail("C06:sct-roundtrip", &format!("get_sender_current_time = {:?}, sender time {:?} us", po.sct, a.sct));
                 }
                 if pid_m.is_some() && po.pid != Sub::Ok(want_pid) {
